@@ -121,7 +121,7 @@ def _norm(x):
     if isinstance(x, np.datetime64):
         # compare datetimes as (unit-independent) microsecond instants where possible; nanosecond values keep their
         # own resolution (a value that lost its sub-microsecond part is another value)
-        if np.datetime_data(x.dtype)[0] == "ns" and not np.isnat(x):
+        if np.datetime_data(x.dtype)[0] == "ns" and not np.isnat(x) and x.astype("int64").item() % 1000:
             return ("dt-ns", x.astype("int64").item())
         try:
             return ("dt", x.astype("datetime64[us]").astype("int64").item())
